@@ -212,6 +212,7 @@ type engine struct {
 	drainStep   int // step of the first DrainSends call (0 = none)
 	drainDoneOK bool
 	drainDoneAt int // handler-seen SENDs when DrainSends first returned nil
+	drainAcksAt int // SENDACKs written when DrainSends first returned nil
 	idles       int
 	acksTotal   int
 	overlapSeen bool
@@ -1142,6 +1143,7 @@ func (e *engine) observe() {
 				if !e.drainDoneOK {
 					e.drainDoneOK = true
 					e.drainDoneAt = e.totalHSends()
+					e.drainAcksAt = e.acksTotal
 				}
 				q.r.Probe("drain_completed")
 			} else {
@@ -1154,6 +1156,12 @@ func (e *engine) observe() {
 	}
 	if e.drainDoneOK && e.totalHSends() > e.drainDoneAt {
 		q.fail("dispatch-after-drain-complete", "", fmt.Sprintf("a SEND reached the handler after DrainSends had returned nil (%d -> %d)", e.drainDoneAt, e.totalHSends()), nil)
+		return
+	}
+	if e.drainDoneOK && e.acksTotal > e.drainAcksAt {
+		// everything admitted before the drain was answered (or its session closed)
+		// before nil was returned, and nothing is admitted afterwards
+		q.fail("dispatch-after-drain-complete", "sendack", fmt.Sprintf("a SENDACK was written after DrainSends had returned nil (%d -> %d)", e.drainAcksAt, e.acksTotal), nil)
 	}
 }
 
